@@ -173,6 +173,14 @@ def run(ctx, F):
         ctx.judge(c.fn is fend, "C15.close-at-end", "close_all_stw_buckets <- %s" % short(c.fn.q), expected="called only when the GC has finished", found=c.fn.q,
                   where=where(c.fn, c.line), key="C15.close-at-end|caller|" + c.fn.q)
     for c in callers(F, SCHED + "reset_state"):
+        # frozen exception (feature `sanity`): ScheduleSanityGC re-closes the later stages to run the sanity trace as a second pass. It is
+        # legitimate only because that packet runs in the Final stage, i.e. after every earlier STW stage of the collection has been drained.
+        if c.fn.q.startswith("<util::sanity::sanity_checker::ScheduleSanityGC as "):
+            ss = [s_ for s_ in stage_sites(F) if "ScheduleSanityGC" in s_.packets]
+            ctx.judge(bool(ss) and all(s_.stage == "Final" and s_.method == "add" for s_ in ss), "C15.close-at-end", "reset_state <- %s (sanity pass)" % short(c.fn.q),
+                      expected="ScheduleSanityGC is only ever added to the Final stage", found=str([(s_.stage, s_.method, short(s_.fn.q)) for s_ in ss])[:200], where=where(c.fn, c.line),
+                      key="C15.close-at-end|reset_state|sanity")
+            continue
         ctx.judge(False, "C15.close-at-end", "reset_state <- %s" % short(c.fn.q), expected="no caller inside a GC (could close buckets mid-GC)", found=c.fn.q,
                   where=where(c.fn, c.line), key="C15.close-at-end|reset_state|" + c.fn.q)
 
